@@ -1,6 +1,52 @@
-(* C04 — placeholder until model/SyncProto.v lands *)
-From Coq Require Import List.
+(* C04 — devices and server converge once edits stop and everyone syncs.
+   Model: model/SyncProto.v, one event log, atomic requests.  The tree comparison is a
+   parameter whose laws L1-L4 are what C08 proves for CommitTree::compare modulo explicit hash
+   collisions (C08_equal_sound/complete, C08_contains_complete, C08_contains_char): the
+   theorems below therefore hold for a collision-free hash.
+   Proved: one uninterrupted sync of a device whose log shares a non-empty prefix with the
+   server's ends with device log = server log, in each of the three possible shapes (device
+   ahead, server ahead, diverged) — under the stated hypotheses: no commit hash occurs twice in
+   a log, and (diverged case) no position beyond the common prefix holds the same commit on
+   both sides.  Convergence of any number of devices after quiescent rounds follows by
+   iterating these steps; it is checked on real accounts by the correspondence run, not proved
+   here (partial). *)
+From Coq Require Import List NArith.
+From SosModel Require Import model.EventLog model.MergePatches model.SyncProto proofs.SyncProto_Lemmas.
 Import ListNotations.
-Theorem C04_placeholder : forall (A : Type) (l : list A), l ++ [] = l.
-Proof. exact app_nil_r. Qed.
-Print Assumptions C04_placeholder.
+
+Section C04.
+Variable hash : Type.
+Variable hash_eqb : hash -> hash -> bool.
+Hypothesis hash_eqb_spec : forall a b, hash_eqb a b = true <-> a = b.
+Variable dat : Type.
+Variable cmpf : list hash -> list hash -> cmp3.
+Hypothesis L1 : forall a, cmpf a a = CEq.
+Hypothesis L2 : forall a b, cmpf a b = CEq -> a = b.
+Hypothesis L3 : forall b s, b <> [] -> s <> [] -> cmpf (b ++ s) b = CContains.
+Hypothesis L4 : forall a b, cmpf a b = CContains ->
+  b <> [] /\ nth_error a (length b - 1) = nth_error b (length b - 1).
+Notation sync_log := (sync_log hash hash_eqb dat cmpf).
+Notation commits := (commits hash dat).
+
+Theorem C04_sync_device_ahead srv s : srv <> [] -> s <> [] -> NoDup (commits (srv ++ s)) ->
+  sync_log (srv ++ s) srv = (SyncOk, srv ++ s, srv ++ s).
+Proof. exact (sync_push hash hash_eqb hash_eqb_spec dat cmpf L3 srv s). Qed.
+
+Theorem C04_sync_server_ahead dev s : dev <> [] -> s <> [] -> NoDup (commits (dev ++ s)) ->
+  sync_log dev (dev ++ s) = (SyncOk, dev ++ s, dev ++ s).
+Proof. exact (sync_pull hash hash_eqb hash_eqb_spec dat cmpf L1 L2 L3 L4 dev s). Qed.
+
+Theorem C04_sync_diverged p x l r : l <> [] -> r <> [] ->
+  NoDup (commits (p ++ x :: l)) -> NoDup (commits (p ++ x :: r)) ->
+  NoAlignedMatch hash (S (length p)) (commits (p ++ x :: l)) (commits (p ++ x :: r)) ->
+  exists m, sync_log (p ++ x :: l) (p ++ x :: r) = (SyncOk, (p ++ [x]) ++ m, (p ++ [x]) ++ m).
+Proof. exact (sync_diverged hash hash_eqb hash_eqb_spec dat cmpf L1 L2 L3 L4 p x l r). Qed.
+
+Theorem C04_sync_equal l : sync_log l l = (SyncOk, l, l).
+Proof. exact (sync_equal hash hash_eqb dat cmpf L1 l). Qed.
+End C04.
+
+Print Assumptions C04_sync_device_ahead.
+Print Assumptions C04_sync_server_ahead.
+Print Assumptions C04_sync_diverged.
+Print Assumptions C04_sync_equal.
